@@ -23,7 +23,7 @@ json.dump(m,open(d+'/meta.json','w'),indent=1)
 PY
   done
 }
-for d in seeded/*/; do
+for d in ${SWEEP_DIRS:-seeded/*/}; do
   while [ $(jobs -r | wc -l) -ge 3 ]; do sleep 3; done
   one ${d%/} &
 done
